@@ -148,4 +148,218 @@ theorem item_scalar (env : Env) (v : Val) (hv : Lit env v) (k : List Sym) (hk : 
   | arr vs => exact absurd hs (by simp)
   | hash es => exact absurd hs (by simp)
 
+/-! ### containers -/
+
+theorem syms_length (s : Str) : (syms s).length = s.length := by simp [syms]
+
+theorem stopOK_cons (c : Char) (k : List Sym) (h : c = ',' ∨ c = ']' ∨ c = '}' ∨ c = ')' ∨ c = ' ') :
+    stopOK (.chr c :: k) = true := by
+  rcases h with h | h | h | h | h <;> subst h <;> rfl
+
+mutual
+theorem item_rt (env : Env) : (v : Val) → Lit env v → (k : List Sym) → stopOK k = true → (fuel : Nat) →
+    2 * (printVal v).length ≤ fuel →
+    ∃ t st, readTok env (syms (printVal v) ++ k) = .ok (t, st) ∧
+      parseItem env fuel t st = ItemRes env (exprOf v) k
+  | .arr vs, hv, k, hk, fuel, hf => by
+    simp only [printVal, List.length_cons, List.length_append, List.length_nil] at hf
+    obtain ⟨f, rfl⟩ : ∃ f, fuel = f + 1 := ⟨fuel - 1, by omega⟩
+    refine ⟨⟨.lbrack, ['[']⟩, ⟨syms (printVals vs ++ [']']) ++ k, false, 1⟩, ?_, ?_⟩
+    · simp only [printVal, syms_cons, List.cons_append]
+      exact readTok_of_tok (nextToken_punct env.isLetter '[' .lbrack _ (by simp))
+    · unfold parseItem
+      simp only
+      have hlit : LitL env vs := by simpa [Lit] using hv
+      rw [arr_rt env vs hlit k hk f (by omega) _ [] (by simp) (by simp [syms_append])]
+      simp only [PR.bind, after_eq, List.reverse_nil, List.nil_append, exprOf]
+      rw [cvt_noEntry _ (exprsOf_noEntry vs)]
+  | .hash es, hv, k, hk, fuel, hf => by
+    simp only [printVal, List.length_cons, List.length_append, List.length_nil] at hf
+    obtain ⟨f, rfl⟩ : ∃ f, fuel = f + 1 := ⟨fuel - 1, by omega⟩
+    refine ⟨⟨.lcurly, ['{']⟩, ⟨syms (printEntries es ++ ['}']) ++ k, false, 1⟩, ?_, ?_⟩
+    · simp only [printVal, syms_cons, List.cons_append]
+      exact readTok_of_tok (nextToken_punct env.isLetter '{' .lcurly _ (by simp))
+    · unfold parseItem
+      simp only
+      have hlit : LitE env es := by simpa [Lit] using hv
+      rw [hash_rt env es hlit k hk f (by omega) _ [] (by simp [syms_append])]
+      simp only [PR.bind, after_eq, List.reverse_nil, List.nil_append, exprOf]
+  | .undef, hv, k, hk, fuel, _ => item_scalar env _ hv k hk fuel trivial
+  | .dflt, hv, k, hk, fuel, _ => item_scalar env _ hv k hk fuel trivial
+  | .bool _, hv, k, hk, fuel, _ => item_scalar env _ hv k hk fuel trivial
+  | .int _, hv, k, hk, fuel, _ => item_scalar env _ hv k hk fuel trivial
+  | .float _ _, hv, k, hk, fuel, _ => item_scalar env _ hv k hk fuel trivial
+  | .str _, hv, k, hk, fuel, _ => item_scalar env _ hv k hk fuel trivial
+  | .regexp _, hv, k, hk, fuel, _ => item_scalar env _ hv k hk fuel trivial
+
+theorem arr_rt (env : Env) : (vs : List Val) → LitL env vs → (k : List Sym) → stopOK k = true → (fuel : Nat) →
+    2 * (printVals vs).length + 1 ≤ fuel → (st : PS) → (items : List Expr) → (∀ e ∈ items, e.noEntry = true) →
+    readTok env st.rest = readTok env (syms (printVals vs ++ [']']) ++ k) →
+    arrayLoop env fuel .rbrack st items none =
+      .ok (.arr (cvt (items.reverse ++ exprsOf vs) []), ⟨k, false, 1⟩)
+  | [], _, k, _, fuel, hf, st, items, _, hst => by
+    obtain ⟨f, rfl⟩ : ∃ f, fuel = f + 1 := ⟨fuel - 1, by omega⟩
+    unfold arrayLoop
+    simp only [printVals, List.nil_append, syms_cons, syms_nil, List.cons_append] at hst
+    rw [hst, readTok_of_tok (nextToken_punct env.isLetter ']' .rbrack k (by simp))]
+    simp only [PR.bind]
+    unfold parseItem
+    simp [exprsOf]
+  | [v], hvs, k, hk, fuel, hf, st, items, hi, hst => by
+    obtain ⟨f, rfl⟩ : ∃ f, fuel = f + 1 := ⟨fuel - 1, by omega⟩
+    simp only [printVals] at hf hst
+    have hv : Lit env v := hvs.1
+    obtain ⟨t, st1, h1, h2⟩ := item_rt env v hv (.chr ']' :: k) (stopOK_cons _ _ (by simp)) f (by omega)
+    unfold arrayLoop
+    rw [hst]
+    simp only [syms_append, syms_cons, syms_nil, List.append_assoc, List.cons_append, List.nil_append] at h1 ⊢
+    rw [h1]
+    simp only [PR.bind, h2, ItemRes_rbrack]
+    simp [exprsOf]
+  | v :: w :: ws, hvs, k, hk, fuel, hf, st, items, hi, hst => by
+    obtain ⟨f, rfl⟩ : ∃ f, fuel = f + 1 := ⟨fuel - 1, by omega⟩
+    simp only [printVals, List.length_append, List.length_cons] at hf
+    have hv : Lit env v := hvs.1
+    have hrest : LitL env (w :: ws) := hvs.2
+    let X := syms (printVals (w :: ws) ++ [']']) ++ k
+    obtain ⟨t, st1, h1, h2⟩ := item_rt env v hv (.chr ',' :: .chr ' ' :: X) (stopOK_cons _ _ (by simp)) f (by omega)
+    have hrec := arr_rt env (w :: ws) hrest k hk f (by omega) ⟨.chr ' ' :: X, false, 1⟩ (exprOf v :: items)
+      (by intro e he; simp only [List.mem_cons] at he; rcases he with rfl | he
+          · exact exprOf_noEntry v
+          · exact hi e he)
+      (by simp only [readTok_blank]; rfl)
+    unfold arrayLoop
+    rw [hst]
+    have htxt : syms (printVals (v :: w :: ws) ++ [']']) ++ k = syms (printVal v) ++ (.chr ',' :: .chr ' ' :: X) := by
+      simp [printVals, syms_append, syms_cons, X]
+    rw [htxt, h1]
+    simp only [PR.bind, h2, ItemRes_comma]
+    simp only [show (TK.comma = TK.rbrack) = False by decide, if_false, if_true]
+    rw [hrec]
+    simp [exprsOf]
+
+theorem hash_rt (env : Env) : (es : List (Val × Val)) → LitE env es → (k : List Sym) → stopOK k = true → (fuel : Nat) →
+    2 * (printEntries es).length + 1 ≤ fuel → (st : PS) → (items : List (Expr × Expr)) →
+    readTok env st.rest = readTok env (syms (printEntries es ++ ['}']) ++ k) →
+    hashLoop env fuel st items = .ok (items.reverse ++ entriesOf es, ⟨k, false, 1⟩)
+  | [], _, k, _, fuel, hf, st, items, hst => by
+    obtain ⟨f, rfl⟩ : ∃ f, fuel = f + 1 := ⟨fuel - 1, by omega⟩
+    unfold hashLoop
+    simp only [printEntries, List.nil_append, syms_cons, syms_nil, List.cons_append] at hst
+    rw [hst, readTok_of_tok (nextToken_punct env.isLetter '}' .rcurly k (by simp))]
+    simp only [PR.bind]
+    unfold parseItem
+    simp [entriesOf]
+  | [(kk, vv)], hes, k, hk, fuel, hf, st, items, hst => by
+    obtain ⟨f, rfl⟩ : ∃ f, fuel = f + 1 := ⟨fuel - 1, by omega⟩
+    simp only [printEntries, List.length_append] at hf hst
+    have hkk : Lit env kk := hes.1
+    have hvv : Lit env vv := hes.2.1
+    let Y := syms (printVal vv) ++ (.chr '}' :: k)
+    obtain ⟨t, st1, h1, h2⟩ := item_rt env kk hkk (.chr ' ' :: .chr '=' :: .chr '>' :: .chr ' ' :: Y)
+      (stopOK_cons _ _ (by simp)) f (by omega)
+    obtain ⟨t2, st3, h3, h4⟩ := item_rt env vv hvv (.chr '}' :: k) (stopOK_cons _ _ (by simp)) f (by omega)
+    unfold hashLoop
+    rw [hst]
+    have htxt : syms (printVal kk ++ (" => ".toList ++ printVal vv) ++ ['}']) ++ k =
+        syms (printVal kk) ++ (.chr ' ' :: .chr '=' :: .chr '>' :: .chr ' ' :: Y) := by
+      have : " => ".toList = [' ', '=', '>', ' '] := by decide
+      simp [this, syms_append, syms_cons, Y]
+    rw [htxt, h1]
+    simp only [PR.bind, h2, ItemRes_rocket]
+    simp only [ne_eq, not_true_eq_false, if_false, readTok_blank]
+    rw [h3]
+    simp only [h4, ItemRes_rcurly]
+    simp [entriesOf]
+  | (kk, vv) :: e2 :: es, hes, k, hk, fuel, hf, st, items, hst => by
+    obtain ⟨f, rfl⟩ : ∃ f, fuel = f + 1 := ⟨fuel - 1, by omega⟩
+    simp only [printEntries, List.length_append, List.length_cons] at hf
+    have hkk : Lit env kk := hes.1
+    have hvv : Lit env vv := hes.2.1
+    have hrest : LitE env (e2 :: es) := hes.2.2
+    let X := syms (printEntries (e2 :: es) ++ ['}']) ++ k
+    let Y := syms (printVal vv) ++ (.chr ',' :: .chr ' ' :: X)
+    obtain ⟨t, st1, h1, h2⟩ := item_rt env kk hkk (.chr ' ' :: .chr '=' :: .chr '>' :: .chr ' ' :: Y)
+      (stopOK_cons _ _ (by simp)) f (by omega)
+    obtain ⟨t2, st3, h3, h4⟩ := item_rt env vv hvv (.chr ',' :: .chr ' ' :: X) (stopOK_cons _ _ (by simp)) f (by omega)
+    have hrec := hash_rt env (e2 :: es) hrest k hk f (by omega) ⟨.chr ' ' :: X, false, 1⟩
+      ((exprOf kk, exprOf vv) :: items) (by simp only [readTok_blank]; rfl)
+    unfold hashLoop
+    rw [hst]
+    have htxt : syms (printEntries ((kk, vv) :: e2 :: es) ++ ['}']) ++ k =
+        syms (printVal kk) ++ (.chr ' ' :: .chr '=' :: .chr '>' :: .chr ' ' :: Y) := by
+      have : " => ".toList = [' ', '=', '>', ' '] := by decide
+      simp [printEntries, this, syms_append, syms_cons, X, Y]
+    rw [htxt, h1]
+    simp only [PR.bind, h2, ItemRes_rocket]
+    simp only [ne_eq, not_true_eq_false, if_false, readTok_blank]
+    rw [h3]
+    simp only [h4, ItemRes_comma]
+    simp only [show (TK.comma = TK.rcurly) = False by decide, if_false, if_true]
+    rw [hrec]
+    simp [entriesOf]
+end
+
+/-! ### the whole text -/
+
+theorem readTok_nil (env : Env) : readTok env [] = .ok (⟨.eoi, []⟩, ⟨[], true, 0⟩) := by
+  simp [readTok, nextToken, nextTok]
+
+theorem first_tok_not_type (env : Env) (v : Val) (hv : Lit env v) (k : List Sym) (hk : stopOK k = true) (t : Tok) (st : PS)
+    (h : readTok env (syms (printVal v) ++ k) = .ok (t, st)) : ¬(t.k = .ident ∧ t.s = "type".toList) := by
+  have inj : ∀ {t' : Tok} {st' : PS}, readTok env (syms (printVal v) ++ k) = .ok (t', st') → t = t' := by
+    intro t' st' h'; rw [h] at h'; cases h'; rfl
+  have word : ∀ (c : Char) (w : Str), printVal v = c :: w → isLower c = true →
+      (∀ d ∈ w, isWord d = true ∧ d ≠ ':' ∧ d ≠ runeError) → (c :: w) ≠ "type".toList →
+      ¬(t.k = .ident ∧ t.s = "type".toList) := by
+    intro c w hp hc hw hne
+    rw [hp] at inj
+    have := inj (readTok_of_tok (nextToken_word env.isLetter c w k hc hw hk))
+    subst this
+    intro hh; exact hne hh.2
+  cases v with
+  | undef => exact word 'u' ['n', 'd', 'e', 'f'] (by simp only [printVal, kw_undef]) (by decide) (by decide) (by decide)
+  | dflt =>
+    exact word 'd' ['e', 'f', 'a', 'u', 'l', 't'] (by simp only [printVal, kw_default]) (by decide) (by decide)
+      (by decide)
+  | bool b =>
+    cases b with
+    | true =>
+      exact word 't' ['r', 'u', 'e'] (by simp only [printVal, if_true, kw_true]) (by decide) (by decide) (by decide)
+    | false =>
+      exact word 'f' ['a', 'l', 's', 'e'] (by simp only [printVal, Bool.false_eq_true, if_false, kw_false]) (by decide)
+        (by decide) (by decide)
+  | int i =>
+    have := inj (readTok_of_tok (nextToken_int env.isLetter i k hk)); subst this; simp
+  | float b tx =>
+    simp only [Lit] at hv
+    have := inj (readTok_of_tok (hv.1 k hk)); subst this; simp
+  | str s =>
+    have := inj (readTok_of_tok (nextToken_puppetQuote env.isLetter s k)); subst this; simp
+  | regexp s =>
+    simp only [Lit] at hv
+    have := inj (readTok_of_tok (nextToken_regexpQuote env.isLetter s k hv.1)); subst this; simp
+  | arr vs =>
+    have := inj (show readTok env (syms (printVal (.arr vs)) ++ k) = _ from by
+      simp only [printVal, syms_cons, List.cons_append]
+      exact readTok_of_tok (nextToken_punct env.isLetter '[' .lbrack _ (by simp)))
+    subst this; simp
+  | hash es =>
+    have := inj (show readTok env (syms (printVal (.hash es)) ++ k) = _ from by
+      simp only [printVal, syms_cons, List.cons_append]
+      exact readTok_of_tok (nextToken_punct env.isLetter '{' .lcurly _ (by simp)))
+    subst this; simp
+
+/-- **values**: the program-format text of a literal value parses back to that value -/
+theorem value_rt (env : Env) (v : Val) (hv : Lit env v) : parse env (syms (printVal v)) = .value (exprOf v) := by
+  obtain ⟨t, st, h1, h2⟩ := item_rt env v hv [] rfl (fuelFor (syms (printVal v)))
+    (by simp [fuelFor, syms_length])
+  have hnt := first_tok_not_type env v hv [] rfl t st h1
+  simp only [List.append_nil] at h1
+  unfold parse parseFile
+  simp only [h1, PR.bind, hnt, if_false]
+  unfold parseTop
+  simp only [h2, ItemRes, readTok_nil, PR.bind]
+  simp
+
 end Pcore.Syntax
